@@ -26,4 +26,8 @@ MUTANTS = [
     M('C19', 'EQ update_screen masks through a private helper', SC, "        pixel_mask = (1 << self.bpp) - 1\n        raw = self._read_packed_bytes(screen_bit_address, self.width * self.height)\n        self.pixel_indices = [pixel & pixel_mask for pixel in raw]\n", "        self.pixel_indices = self._read_pixels(screen_bit_address, self.width * self.height)\n", None,
       also=[(SC, "    def _set_palette(self, palette_bit_address: int) -> None:\n", "    def _read_pixels(self, first_op_bit_address: int, count: int) -> List[int]:\n        pixel_mask = (1 << self.bpp) - 1\n        return [pixel & pixel_mask for pixel in self._read_packed_bytes(first_op_bit_address, count)]\n\n    def _set_palette(self, palette_bit_address: int) -> None:\n")]),
     M('C19', 'EQ update_screen_raw reduces modulo 2**bpp', SC, "        self.pixel_indices = [pixel & pixel_mask for pixel in pixels]\n", "        self.pixel_indices = [pixel % (1 << self.bpp) for pixel in pixels]\n", None),
+    M('C19', 'packed bytes refused at w = 16 (mutation survey)', 'flipjump/interpreter/io_devices/device_memory.py', "        if self.memory_width < 16:", "        if self.memory_width <= 16:", 'C19.SCREEN-INIT'),
+    M('C19', 'pixel buffer sized width + height (mutation survey)', 'flipjump/interpreter/io_devices/ScreenIO.py', "        self.pixel_indices = [0] * (width * height)", "        self.pixel_indices = [0] * (width + height)", 'C19.SCREEN-INIT'),
+    M('C19', 'a fresh screen counts as initialised', 'flipjump/interpreter/io_devices/ScreenIO.py', "        self.width = 0\n        self.height = 0\n        self.bpp = 8", "        self.width = 1\n        self.height = 1\n        self.bpp = 8", 'C19.SCREEN-INIT'),
+    M('C19', 'EQ pixel buffer sized height * width', 'flipjump/interpreter/io_devices/ScreenIO.py', "        self.pixel_indices = [0] * (width * height)", "        self.pixel_indices = (height * width) * [0]", None),
 ]
